@@ -206,6 +206,8 @@ def run(tier, seed, t0):
     klens = [1, 16, 32, 33, 64, 65] if tier == "quick" else list(range(1, 131))
     jobs = [ob_exchange_1_4, ob_agreement] + [(lambda k=k: side_b(k)) for k in klens] + [(lambda k=k: side_a(k)) for k in klens]
     jobs += [lambda: side_b(16, used=True)]
+    import c05
+    jobs += [(lambda k=k: c05.ob_kdf(64, k)) for k in (8160, 8161)]      # the KDF itself across its one-byte counter boundary
     res = run_parallel(jobs, nproc=12)
     return finish("C15", tier, seed, "model_checking", res, t0,
                   assumptions=["layers uninterpreted; ZA/ZB are the values computed by compute_za (C03) at construction", "w = 127 for the 256-bit order n; cofactor h = 1",
